@@ -106,6 +106,13 @@ class SkipSample(Exception):
     """a float/const sample does not satisfy the case's assumptions"""
 
 
+def with_purity(m, goals):
+    if isinstance(goals, dict) and m.snaps and M.PURITY not in goals:
+        goals = dict(goals)
+        goals[M.PURITY] = m.inputs_untouched()
+    return goals
+
+
 class M:
     """mode object handed to a case body"""
 
@@ -113,6 +120,7 @@ class M:
         self.mode = mode           # 'sym' | 'const' | 'float'
         self.values = values or {}
         self.inputs = {}           # name -> array as created (sym arrays in sym mode)
+        self.snaps = {}            # name -> element-wise copy taken at creation
         self.rng = rng
         self.observed = {}
         self.tol = tol
@@ -139,7 +147,33 @@ class M:
             v = self.values[name]
             a = const(v) if self.mode == "const" else (np.array(v, dtype=float) if shape != () else float(v))
         self.inputs[name] = a
+        if isinstance(a, np.ndarray):
+            self.snaps[name] = np.array(a, dtype=a.dtype, copy=True).view(np.ndarray)
         return a
+
+    PURITY = "the arrays handed in by the caller are not modified"
+
+    def inputs_untouched(self):
+        """generic clause of every case: no call of the library wrote into an input array created by M.real (views included)"""
+        ok = []
+        for name, snap in self.snaps.items():
+            cur = np.asarray(self.inputs[name]).view(np.ndarray)
+            if cur.shape != snap.shape:
+                return False
+            if self.mode == "float":
+                if not np.array_equal(cur, snap):
+                    return False
+                continue
+            for x, y in zip(cur.ravel(), snap.ravel()):
+                if x is y:
+                    continue
+                tx, ty = lift(x), lift(y)
+                if tx.eq(ty):
+                    continue
+                ok.append(tx == ty)
+        if self.mode == "float" or not ok:
+            return True
+        return SBR(z3.And(ok))
 
     def assume(self, cond):
         if self.mode == "float":
@@ -376,7 +410,7 @@ def run_case(prop_id, name, body, kwargs, patches, *, timeout_ms=30000, max_path
             def fn():
                 nonlocal m
                 m = M("sym")
-                return body(m, **kwargs)
+                return with_purity(m, body(m, **kwargs))
 
             for kind, out in (() if skip_sym else eng.explore(fn)):
                 res["paths"] += 1
@@ -467,7 +501,7 @@ def run_float(body, kwargs, values, tol=1e-6):
     """real code, real numpy, no patches. returns (goals: label->bool, observed, exception)"""
     m = M("float", values=dict(values), rng=np.random.default_rng(0), tol=tol)
     try:
-        goals = body(m, **kwargs) or {}
+        goals = with_purity(m, body(m, **kwargs)) or {}
     except SkipSample:
         raise
     except Exception as e:
@@ -493,7 +527,7 @@ def _exc_name(e):
 def _float_run(body, kwargs, seed):
     fm = M("float", rng=np.random.default_rng(seed))
     try:
-        goals = body(fm, **kwargs) or {}
+        goals = with_purity(fm, body(fm, **kwargs)) or {}
         exc = None
     except SkipSample:
         return ("skip",)
@@ -544,7 +578,7 @@ def validate_case(body, kwargs, patches, n=2, seed=0, timeout_ms=30000, algebrai
 
                 def fn():
                     cur["m"] = M("const", values=dict(values), rng=rng)
-                    return body(cur["m"], **kwargs)
+                    return with_purity(cur["m"], body(cur["m"], **kwargs))
 
                 for kind, out in eng.explore(fn):
                     if kind == "exc":
